@@ -114,6 +114,15 @@ POS = {
     "sel_extract": ("op", lambda Q, x: Q.from_(T()).select(FN.Extract("YEAR", x).as_("out"))),
     "sel_cast": ("op", lambda Q, x: Q.from_(T()).select(FN.Cast(x, "INT").as_("out"))),
     "select_nested_func": ("op", lambda Q, x: Q.from_(T()).select(FN.Coalesce(FN.Max(x), 0).as_("out"))),
+    # the same term selected a second time under another alias; an aliased column that is also an INSERT target column
+    "select_after_same_term_other_alias": ("def", lambda Q, x: Q.from_(T()).select(x.as_("other9"), x)),
+    "select_before_same_term_other_alias": ("def", lambda Q, x: Q.from_(T()).select(x).select(x.as_("other9"))),
+    "insert_columns_and_select": ("def", lambda Q, x: Q.into(T()).columns(x).from_(T()).select(x) if type(x) is Field else None),
+    # NOT directly over the (aliased) criterion
+    "where_not_direct": ("op", lambda Q, x: Q.from_(T()).select(T().k).where(~x) if isinstance(x, Criterion) else None),
+    "select_not_direct": ("op", lambda Q, x: Q.from_(T()).select((~x).as_("out")) if isinstance(x, Criterion) else None),
+    "select_not_direct_unaliased": ("op", lambda Q, x: Q.from_(T()).select(~x, T().k) if isinstance(x, Criterion) else None),
+    "case_when_not_direct": ("op", lambda Q, x: Q.from_(T()).select(Case().when(~x, 1).else_(0).as_("out")) if isinstance(x, Criterion) else None),
     # the enclosing select item carries no alias of its own
     "sel_tuple_unaliased": ("op", lambda Q, x: Q.from_(T()).select(Tuple(x, 1), T().k)),
     "sel_bracket_unaliased": ("op", lambda Q, x: Q.from_(T()).select(Bracket(x), T().k)),
@@ -402,6 +411,30 @@ def run_case(case):
             return res
         res.nontrivial = 1
         term = mk(name, True)
+        # the same with an alias that contains the quote characters: definition and reference are the same identifier
+        if d != "oracle" and pos in ("groupby_same", "orderby_same", "groupby_same_second", "orderby_same_second", "setop_orderby_same"):
+            # (not for Oracle, whose identifiers cannot contain a double quote at all)
+            qa = 'zq"9`x'
+            try:
+                aq = fn(Q, mk(name, True, alias=qa), mk(name, True, alias=qa))
+                for sqlq in render_both(aq, d):
+                    res.transitions += 1
+                    if sqlq.startswith("!"):
+                        continue
+                    try:
+                        idq = [t.value for t in lex(sqlq, lexd) if t.kind == "ID" and t.value.startswith("zq")]
+                    except LexError as e:
+                        if d == "oracle":
+                            break  # (an Oracle identifier cannot contain a double quote at all)
+                        res.violate("C12|%s|%s|quoted-alias-unlexable" % (cls_of(name, term), pos), "with an alias containing quote characters the "
+                                    "statement does not lex", dialect=d, term=name, sql=sqlq, error=str(e))
+                        break
+                    if any(v != qa for v in idq):
+                        res.violate("C12|%s|%s|quoted-alias-reference-differs" % (cls_of(name, term), pos), "the alias is referenced under another "
+                                    "spelling than it is defined", dialect=d, term=name, sql=sqlq, ids=idq)
+                        break
+            except Exception:
+                pass
         for sql in render_both(a, d):
             res.transitions += 1
             if sql.startswith("!"):
